@@ -55,6 +55,17 @@ impl IdxState {
 }
 
 /// An allocator in which the `NI` indices are all alive with generation 1.
+pub fn all_alive_into(ent: &mut EntitiesRes) -> [Entity; NI] {
+    let mut slots = [VerifSlot { id: 0, gen: 0, alive: false, raised: false, killed: false }; NI];
+    for i in 0..NI {
+        slots[i] = VerifSlot { id: IDS[i], gen: 1, alive: true, raised: false, killed: false };
+    }
+    // in place: the resource inside the `World` is never replaced by a moved value
+    ent.verif_assign_parts(NI + 1, NI + 1, &slots, &[], 0, 0, NI);
+    [Entity::verif_new(0, 1), Entity::verif_new(1, 1), Entity::verif_new(2, 1)]
+}
+
+#[allow(dead_code)]
 pub fn all_alive() -> (EntitiesRes, [Entity; NI]) {
     let mut slots = [VerifSlot { id: 0, gen: 0, alive: false, raised: false, killed: false }; NI];
     for i in 0..NI {
@@ -111,7 +122,7 @@ pub fn current_handle(st: &[IdxState; NI], i: usize) -> Option<Entity> {
 ///
 /// (Liveness FLAGS are concrete per query because an allocator with symbolic bit-set membership
 /// under a `World` costs CBMC's array theory > 16 GB; the variant generator enumerates patterns.)
-pub fn pattern_entities(pat: [u8; NI]) -> (EntitiesRes, [IdxState; NI]) {
+pub fn pattern_entities_into(ent: &mut EntitiesRes, pat: [u8; NI]) -> [IdxState; NI] {
     let mut slots = [VerifSlot { id: 0, gen: 0, alive: false, raised: false, killed: false }; NI];
     let mut st = [IdxState { g: 0, raised: false, killed: false }; NI];
     let mut cache = [0 as Index; NI];
@@ -130,6 +141,6 @@ pub fn pattern_entities(pat: [u8; NI]) -> (EntitiesRes, [IdxState; NI]) {
             nc += 1;
         }
     }
-    let ent = EntitiesRes::verif_from_parts(NI + 1, NI + 1, &slots, &cache[..nc], nc, nc, NI);
-    (ent, st)
+    ent.verif_assign_parts(NI + 1, NI + 1, &slots, &cache[..nc], nc, nc, NI);
+    st
 }
